@@ -177,6 +177,7 @@ def stepCase (o : Obs) (a : Acc) (ev : String) : Option Acc :=
     pure { a with fails := (t, !(lookup a.fails false t)) :: a.fails }
   | "w" :: _ => some a
   | "d" :: _ => some a
+  | "t" :: _ => some a     -- a touch: the modification time moves, the inputs (INP) stay
   -- a side effect of a command (harness only): what it changes reaches the model through the inputs every task SAW (INP)
   | "x" :: _ => some a
   | "y" :: _ => some a
